@@ -25,11 +25,11 @@ MUTANTS = [
  ("revert_D17_alias", "mosaik/scheduler.py", "            eid: {attr: dict(vals) for attr, vals in attrs.items()}\n            for eid, attrs in sim.persistent_inputs.items()", "            eid: attrs\n            for eid, attrs in sim.persistent_inputs.items()", ["C03", "C04"]),
  ("revert_D18_cache_order", "mosaik/simmanager.py", "            return self.outputs[max(data_times)]", "            return self.outputs[data_times[-1]]", ["C03", "C04"]),
  ("revert_D5_assert", "mosaik/util.py", "            dest_set.remove(dest)\n            max_i -= 1\n", "            dest_set.remove(dest)\n            max_i -= 1\n            assert max_i >= 0\n", ["C18"]),
- ("revert_D9_tb_none", "mosaik/scheduler.py", "    if sim.type == 'time-based' and next_step_time is None:\n        raise SimulationError(", "    if sim.type == 'time-based' and next_step_time is None:\n        raise AssertionError(", ["C13"]),
+ ("revert_D9_tb_none", "mosaik/scheduler.py", "    if sim.type == 'time-based' and next_step_time is None:\n        raise SimulationError(\n            'A time-based simulator must always return a next step, but simulator '\n            f'\"{sim.sid}\" returned None'\n        )", "    if sim.type == 'time-based':\n        assert next_step_time, 'A time-based simulator must always return a next step'", ["C13"]),
  ("revert_D8_set_event", "mosaik/simmanager.py", "            sim.schedule_step(TieredTime(event_time) + sim.from_world_time)", "            sim.schedule_step(TieredTime(event_time))", ["C17"]),
  ("setup_done_always_sent", "mosaik/adapters.py", "    if version < [2, 2]:\n        proxy = V2ToV1Adapter(proxy)", "    if version < [2]:\n        proxy = V2ToV1Adapter(proxy)", ["C15"]),
  ("weak_init_not_required", "mosaik/scenario.py", "        if (time_shifted or weak) and dest_attr in dest.model_mock.measurement_inputs:", "        if time_shifted and dest_attr in dest.model_mock.measurement_inputs:", ["C11"]),
- ("hybrid_default_trigger", "mosaik/scenario.py", "        default_measurements = None if 'trigger' in model_desc else inputs", "        default_measurements = None if 'trigger' in model_desc or 'non-trigger' in model_desc else inputs", ["C12"]),
+ ("hybrid_nonpersistent_inferred", "mosaik/scenario.py", "    default_events = None if type == 'event-based' else empty\n    event_outputs", "    default_events = None if type != 'time-based' else empty\n    event_outputs", ["C12"]),
  ("cycle_check_ignores_async", "mosaik/scenario.py", "        dest_sim.input_delays[src_sim] = delay\n\n    def connect(", "        dest_sim.input_delays.setdefault(src_sim, delay)\n\n    def connect(", ["C06", "C16"]),
  ("stop_skips_last_sim", "mosaik/scenario.py", "            for sim in self.sims.values():\n                self.loop.run_until_complete(sim.stop())", "            for sim in list(self.sims.values())[:max(1, len(self.sims) - (0 if getattr(self, 'tqdm', None) is None or self.tqdm.n >= getattr(self, 'until', 0) else 1))]:\n                self.loop.run_until_complete(sim.stop())", ["C14"]),
  ("evenly_shuffle_once", "mosaik/util.py", "    while pos < src_size:\n        random.shuffle(dest_set)\n        for src, dest in zip(src_set[pos:], dest_set):", "    random.shuffle(dest_set)\n    while pos < src_size:\n        for src, dest in zip(src_set[pos:], dest_set + dest_set[:1]):", ["C18"]),
